@@ -69,6 +69,23 @@ def generate(tier, seed):
             lines = initial_lines(rnd, dom, True)
             cases.append(case("eng", sp, adapter_M(lines), "-", steps))
             dist["random"] += 1
+    # a removal batch that names a stored grouping rule TWICE: the rule goes once, and every other rule of the batch still
+    # loses its link (a link update that stops at the repeated rule would leave the later links behind)
+    dist["repeated_rule_batches"] = 0
+    for name, dom, two in variants[:2]:
+        d = K[name]
+        sp = spec_of(d)
+        qs = block(dom, two)
+        gr, pr = g_rules(dom), p_rules(dom)
+        adm = [r for r in pr if r[0] == "admin"][:2] or [["admin"] + pr[0][1:]]
+        lines = [["p", "p"] + r for r in pr[:2] + adm] + [["g", "g"] + gr[0], ["g", "g"] + gr[2], ["g", "g"] + gr[3]]
+        for batch in ([gr[0], gr[0], gr[2]], [gr[2], gr[0], gr[2], gr[3]], [gr[3], gr[3]], [gr[0], gr[2], gr[0]]):
+            for pre in ([], ["EB:0", "EB:1"], [A("g", "g", gr[5])]):
+                steps = list(qs)
+                for o in pre + [RM("g", "g", batch)]:
+                    steps += [o] + qs + ["BR"] + qs
+                cases.append(case("eng", sp, adapter_M(lines), "-", steps))
+                dist["repeated_rule_batches"] += 1
     # two role definitions of DIFFERENT arity (g = _, _ ; g2 = _, _, _) over shared names
     m = And(Call("g", V("r", "sub"), V("p", "sub")), Call("g2", V("r", "obj"), V("p", "obj"), V("r", "dom")), Eq(V("r", "act"), V("p", "act")))
     sp = "r=sub,dom,obj,act;p=sub,obj,act;g=2;g2=3;e=AO;m={%s}" % m
